@@ -147,6 +147,10 @@ def main():
                 if cfg["lemmas"](lname):
                     tasks.append({"program": name, "rs": pinfo["rs"], "eql": pinfo["eql"], "U": U, "lemma": lname,
                                   "classes": cfg["classes"], "solver": solver, "timeout": timeout})
+                    if lname == "uf" and tier == "quick" and U == 2:
+                        # the union-find lemma is program independent and cheap: forests of depth 2 and 3 need 3 and 4 elements
+                        for U2 in (3, 4):
+                            tasks.append(dict(tasks[-1], U=U2))
     P.log("%d programs, %d lemma tasks" % (len(corpus.programs), len(tasks)))
     results = P.run_tasks(tasks)
     P.log("lemmas done: %s" % {s: sum(1 for r in results if r['status'] == s) for s in ('proved', 'failed', 'inconclusive')})
